@@ -464,7 +464,7 @@ def run_check(pid, tier):
     if broken and not violations and cfg.get("static_search"):
         try:
             with Lock("lake.lock"):
-                static_cases = cfg["static_search"](ctx, run, LEAN, WORK)
+                static_cases = list(extra_cases) + list(cfg["static_search"](ctx, run, LEAN, WORK))
         except Exception as e:  # search is best-effort
             log("[%s] static search failed: %s" % (pid, e))
     rc = 0
